@@ -46,7 +46,7 @@ ScalarBytes(d) ==
     [] d[1] = "ones"   -> Rep(255, d[2])                                                     \* d[2] bytes of 0xff
     [] d[1] = "alt"    -> [i \in 1..32 |-> IF i % 2 = 0 THEN d[2] ELSE 255 - d[2]]
     [] d[1] = "long40" -> Rep(d[2], 8) \o BToBytes(BSub(C.n, "3"), 32)
-    [] d[1] = "lcg"    -> [i \in 1..32 |-> (d[2] * 37 + i * 101 + i * i * (d[2] + 3)) % 256]
+    [] d[1] = "lcg"    -> [i \in 1..32 |-> (d[2] * 37 + i * 101 + i * i * (d[2] + 3) + (d[2] \div 256) * (i * 29 + 11)) % 256]
 ScalarVal(d) == BMod(BFromBytes(ScalarBytes(d)), C.n)
 
 Init == /\ \/ (P = BasePt /\ dl = "1") \/ (P = Inf /\ dl = "0")
